@@ -39,9 +39,10 @@ def wrap_layers(rng, gen, t, k):
 
 
 def gen_cases(rng, sides, n, drop):
-    gen = G.Gen(rng, notations=[nt for nt in sides.shipped if nt.family is None])
+    gen = G.Gen(rng, notations=[nt for nt in sides.shipped if nt.family in (None, 'forall')])
     for i in range(8):
         gen.notations.append(gen.random_notation(2, f'g{i}'))
+    binders = G.binder_notations(gen.notations)
     cases = []
     for _ in range(n):
         depth = rng.choice([1, 2, 2, 3])
@@ -49,7 +50,13 @@ def gen_cases(rng, sides, n, drop):
         if c < 0.4:
             a, b = gen.term(depth), gen.term(depth)
             s = rng.random()
-            if s < 0.5:        # applicable, premises in different notation states
+            if s < 0.2:        # antecedent and right premise built from ONE notation definition (ignored argument,
+                               # partial vs fuller application, extra key, reordered dict, one argument changed)
+                x_, y_, _kind = G.related_pair(rng, gen, drop)
+                if rng.random() < 0.5:
+                    x_, y_ = y_, x_
+                L, Rr = ('i', x_, b), y_
+            elif s < 0.5:      # applicable, premises in different notation states
                 L, Rr = present(rng, ('i', a, b), drop), present(rng, a, drop)
             elif s < 0.7:      # antecedent mismatch by one subterm
                 L, Rr = present(rng, ('i', a, b), drop), present(rng, gen.mutate(a), drop)
@@ -80,8 +87,12 @@ def gen_cases(rng, sides, n, drop):
             op = rng.choice(['GEN', 'GEN', 'GENS'])
             args = f'{PC.show(conc)} {x}'
         else:
-            conc = gen.term(depth)
-            d = gen.delta(rng.choice([0, 1, 2])) if rng.random() < 0.9 else ()
+            if binders and rng.random() < 0.2:
+                # Quantifier-axiom shape: phi_k[plug/x] with phi_k := a notation that binds x, applied to an argument mentioning x
+                conc, d, _x = G.subst_under_binder(rng, gen, binders)
+            else:
+                conc = gen.term(depth)
+                d = gen.delta(rng.choice([0, 1, 2])) if rng.random() < 0.9 else ()
             op = rng.choice(['BI', 'BI', 'BIS'])
             args = PC.show(conc) + ' ' + PC.showd(d)
         cases.append(PS.make_case(op, args))
